@@ -92,7 +92,19 @@ def infixLoop : Nat → Nat → Node → List Tk → Except PErr (Node × List T
     | [] => .ok (left, toks)
 end
 
-/-- `match_exprlist` + `parse`: optional format, comma separated expressions, then EOF -/
+/-- nesting depth of an expression tree (`miniparser.is_deeper_than` counts the same way) -/
+def Node.depth : Node → Nat
+  | .int _ | .reg _ | .sym _ => 1
+  | .mem a => a.depth + 1
+  | .prefix _ a => a.depth + 1
+  | .infix _ l r => max l.depth r.depth + 1
+
+/-- `MAX_DEPTH` of hera/debugger/miniparser.py -/
+def maxDepth : Nat := 100
+
+/-- `match_exprlist` + `parse`: optional format, comma separated expressions, then EOF; trees nested deeper than
+    `MAX_DEPTH` are refused (parenthesis nesting beyond Python's own recursion limit, which the real parser reports the same
+    way, is not modelled) -/
 def parse (toks : List Tk) : Except PErr (Str × List Node) :=
   let fuel := 4 * toks.length + 8
   let (fmtS, toks) := match toks with
@@ -109,8 +121,8 @@ def parse (toks : List Tk) : Except PErr (Str × List Node) :=
   | .error e => .error e
   | .ok (seq, rest) =>
     match rest with
-    | [.eof] => .ok (fmtS, seq)
-    | [] => .ok (fmtS, seq)
+    | [.eof] | [] =>
+      if seq.any (fun n => decide (n.depth > maxDepth)) then .error (.syntax "expression is too deeply nested") else .ok (fmtS, seq)
     | _ => .error (.syntax "trailing input")
 
 /-- `Shell.evaluate_node` (HERAError messages collapsed to the specification's error kinds) -/
